@@ -164,7 +164,7 @@ def judge(ck, t, o, mode, honor):
         return
     if not honor:
         seg = np.linalg.norm(np.diff(ray, axis=0), axis=1)
-        if (seg > t["stepsize"] * (1 + 1e-9) + 1e-12).any():
+        if (seg > t["stepsize"] * (1 + 1e-9) + 1e-12 + 16 * 2.3e-16 * float(np.abs(ray).max())).any():
             ck.violation("consecutive vertices more than one step apart", dict(pl, max_seg=float(seg.max()), step=t["stepsize"]))
     else:
         inner = rel[1:-1]
@@ -291,7 +291,10 @@ def api_rays(ck, r, tier):
                     why = "polyline does not start exactly at the source / end exactly at the end point"
                 elif (ray < lo - 1e-9 * (1 + np.abs(lo).max())).any() or (ray > hi + 1e-9 * (1 + np.abs(hi).max())).any():
                     why = "ray vertex outside the grid"
-                elif len(ray) > 1 and (np.linalg.norm(np.diff(ray, axis=0), axis=1) > step * (1 + 1e-9) + 1e-12).any():
+                elif len(ray) > 1 and (np.linalg.norm(np.diff(ray, axis=0), axis=1)
+                                       > step * (1 + 1e-9) + 1e-12 + 16 * 2.3e-16 * float(np.abs(ray).max())).any():
+                    # (last term: the vertices are returned as kernel coordinates + origin, each rounded to the
+                    # resolution of the absolute coordinate - 1.2e-10 at an origin of 1e6)
                     why = "consecutive vertices more than one step apart"
                 elif max(seg_dist(p, ray[0], ray[-1]) for p in ray) > 1.5 * m["h"] + 1e-9:
                     why = "ray strays more than a cell and a half from the straight segment in a homogeneous medium"
